@@ -24,6 +24,7 @@ import sys
 import time
 import warnings
 
+from sim import corpus as icorpus
 from sim import gen, genv, sched
 from sim.choices import Choices, EventLog, mix
 
@@ -39,7 +40,7 @@ ASSUMPTIONS = [
 MANIFEST = {
     "level": LEVEL,
     "technique": "deterministic simulation: one program observed under a vector of (hash seed, heap-layout seed, worklist schedule) configurations in pinned fresh interpreters; observations must agree",
-    "text": "Seeded search over programs x configurations: generated programs (accepted and rejected, with k>=2 candidate mistakes so that a nondeterministic choice is visible) and the tests/error corpus are compiled under several PYTHONHASHSEED values, seeded heap layouts (ASLR off, shipped set.pop()) and seeded worklist schedules (hook); sha256 of the emitted package / the rendered diagnostic must be identical across the vector. Disagreements are confirmed alone, minimised and written as a two-configuration replay. Sampling, not proof.",
+    "text": "Seeded search over programs x configurations: generated programs (accepted and rejected, with k>=2 candidate mistakes so that a nondeterministic choice is visible), the tests/error corpus and the test functions of tests/integration (551 items, every public check/compile call they make) are compiled under several PYTHONHASHSEED values, seeded heap layouts (ASLR off, shipped set.pop()) and seeded worklist schedules (hook); sha256 of the emitted package / the rendered diagnostic must be identical across the vector. Disagreements are confirmed alone, minimised and written as a two-configuration replay. Sampling, not proof.",
     "note": "Trusted: ASLR-off + PYTHONHASHSEED make a fresh interpreter's layout a function of its allocation history (self-tested), the program generator as workload, the compat shim.",
     "design_ref": "DESIGN.md section 3 (C10)",
 }
@@ -54,6 +55,7 @@ def warm() -> None:
     import guppylang_internals.experimental as X
     X.EXPERIMENTAL_FEATURES_ENABLED = True
     try:
+        icorpus.install()
         import tests.util  # noqa: F401  (corpus modules import it)
         import tests.error.util  # noqa: F401
     except Exception:  # noqa: BLE001
@@ -152,6 +154,18 @@ def run_corpus(modname: str) -> dict:
     return {"obs": [o], "source": modname, "mistake": None, "defs": []}
 
 
+def run_itest(item: str) -> dict:
+    """One test function of tests/integration with stand-in fixtures; the observation is
+    the list of outcomes of the public API calls it makes (sha256 of Package.to_bytes(),
+    rendered diagnostic, exception) and how it ended."""
+    try:
+        r = icorpus.run_item(item)
+        obs = r["obs"] + ["end:" + r["end"]]
+    except BaseException as e:  # noqa: BLE001
+        obs = [f"exception:{type(e).__name__}: {str(e)[:200]}"]
+    return {"obs": obs, "source": item, "mistake": None, "defs": []}
+
+
 def run_job(job: dict) -> dict:
     """job: {"config": {...}, "items": [[index, kind, seed_or_name, choices?]...]}"""
     import guppylang_internals.cfg.analysis as A
@@ -172,6 +186,8 @@ def run_job(job: dict) -> dict:
             ch = Choices(replay=choices) if choices is not None else Choices(seed=val)
             r = run_program(ch, job.get("params", {}), f"c10_p{idx}")
             r["choices"] = ch.record if job.get("want_choices") else None
+        elif kind == "itest":
+            r = run_itest(val)
         else:
             r = run_corpus(val)
         r["index"] = idx
@@ -216,16 +232,20 @@ def main(tier: str, seed: int) -> int:
     for c in cfgs:
         env = base_env(hashseed=c["hashseed"])
         flavours[c["flavour"]] = env
-    n_gen, n_corpus, per = (320, 48, 16) if tier == "quick" else (6000, 10 ** 6, 25)
+    n_gen, n_corpus, n_itest, per = (320, 40, 48, 17) if tier == "quick" else (6000, 10 ** 6, 10 ** 6, 25)
     budget_s = float(os.environ.get("VERIF_BUDGET_S", 120 if tier == "quick" else 1500))
     params = {"max_stmts": 12}
     corpus = corpus_files()
     ch0 = Choices(seed=mix(seed, "C10", "corpus"))
     corpus_pick = corpus if n_corpus >= len(corpus) else \
         sorted(ch0.shuffle(corpus, "corpus_sample")[:n_corpus])
+    itests = icorpus.discover_static()
+    itest_pick = itests if n_itest >= len(itests) else \
+        sorted(Choices(seed=mix(seed, "C10", "itests")).shuffle(itests, "itest_sample")[:n_itest])
     gen_items = [[i, "gen", mix(seed, "C10", i), None] for i in range(n_gen)]
     cor_items = [[n_gen + j, "corpus", m, None] for j, m in enumerate(corpus_pick)]
-    items = gen_items + cor_items            # index -> item
+    it_items = [[n_gen + len(cor_items) + j, "itest", m, None] for j, m in enumerate(itest_pick)]
+    items = gen_items + cor_items + it_items   # index -> item
     # every batch mixes generated programs and corpus modules, so that a wall budget
     # that stops exploration early still covers both
     n_b = max(1, (len(items) + per - 1) // per)
@@ -234,6 +254,8 @@ def main(tier: str, seed: int) -> int:
         batches[k % n_b].append(it)
     for k, it in enumerate(cor_items):
         batches[k % n_b].append(it)
+    for k, it in enumerate(it_items):
+        batches[(k * 7) % n_b].append(it)
     batch_of = {it[0]: b for b in batches for it in b}
     pool = Pool(__name__, flavours, F.n_workers())
     harness: list[str] = []
@@ -241,7 +263,8 @@ def main(tier: str, seed: int) -> int:
     programs_done = 0
     probes = {"programs_with_mistake_k>=2": 0, "programs_rejected": 0, "programs_accepted": 0,
               "worklists_scheduled(unordered)": 0, "worklists_left_alone(ordered)": 0,
-              "corpus_modules": 0, "disagreements_seen": 0, "confirmed_alone": 0}
+              "corpus_modules": 0, "integration_test_functions": 0, "integration_api_calls": 0,
+              "disagreements_seen": 0, "confirmed_alone": 0}
     reported, known_hits = [], {}
     samples = []
     try:
@@ -269,9 +292,12 @@ def main(tier: str, seed: int) -> int:
             if ref_name not in per_cfg:
                 continue
             ref = per_cfg[ref_name]
-            kindname = "gen" if idx < n_gen else "corpus"
+            kindname = items[idx][1]
             if kindname == "corpus":
                 probes["corpus_modules"] += 1
+            elif kindname == "itest":
+                probes["integration_test_functions"] += 1
+                probes["integration_api_calls"] += max(0, len(ref["obs"]) - 1)
             else:
                 if ref.get("mistake"):
                     probes["programs_with_mistake_k>=2"] += 1
@@ -359,7 +385,7 @@ def main(tier: str, seed: int) -> int:
         "evaluations": evals, "distinct_nontrivial": len(nontrivial),
         "programs": len(obs), "configurations_per_program": len(cfgs),
         "configuration_vector": [c["name"] for c in cfgs],
-        "rule": "one evaluation = one program (generated, or one tests/error corpus module) observed under one configuration; distinct = distinct observation digests under the reference configuration; non-trivial = observed under the complete configuration vector",
+        "rule": "one evaluation = one program (generated, one tests/error corpus module, or one tests/integration test function run with stand-in fixtures: every public check/compile call it makes is observed) under one configuration; distinct = distinct observation digests under the reference configuration; non-trivial = observed under the complete configuration vector",
         "runs_per_hour": int(evals * 3600 / max(explore_wall, 1e-6)),
         "seeds_per_hour": int(len(obs) * 3600 / max(explore_wall, 1e-6)),
         "simulated_time": {"unit": "logical steps (worklist pops decided by the scheduler)"},
@@ -367,7 +393,7 @@ def main(tier: str, seed: int) -> int:
                          "layout_perturbations": len({c["layout"] for c in cfgs}),
                          "schedule_policies": sum(1 for c in cfgs if c["hook"])},
         "probes": probes, "samples": samples or [{"note": "none"}],
-        "components_real": ["whole checker/compiler pipeline of /repo", "tests/error corpus modules"],
+        "components_real": ["whole checker/compiler pipeline of /repo", "tests/error corpus modules", "tests/integration test functions (stand-in fixtures: validate = no-op, run_*_fn compile the conftest's entry point instead of emulating, EmulatorBuilder.build ends the item)"],
         "components_stub": ["compat shim (3 patch points)",
                             "worklist container replaced by the seeded scheduler in the schedule configurations only"],
         "aslr_off": aslr_off, "harness_errors": len(harness),
